@@ -548,10 +548,13 @@ def icmp(m, pred, a, b, w, ins):
 
 
 def table_bytes(m, reg, off, n):
-    g = m.P.globals.get(reg[1])
-    if g is None or 'bytes' not in g or not g['const']:
-        return None
-    b = bytes.fromhex(g['bytes'])
+    cache = m.P.__dict__.setdefault('_gbytes', {})
+    b = cache.get(reg[1])
+    if b is None:
+        g = m.P.globals.get(reg[1])
+        if g is None or 'bytes' not in g or not g['const']:
+            return None
+        b = cache[reg[1]] = bytes.fromhex(g['bytes'])
     if off < 0 or off + n > len(b):
         raise KernelViolation('constant table %s read out of bounds (offset %d, %d bytes)' % (reg[1], off, n))
     return b[off:off + n]
@@ -588,17 +591,25 @@ def load_bytes(m, p, n, ins):
             ent = table_bytes(m, p.reg, p.off, 1)
             if ent is None:
                 raise Unsupported('symbolic index into non-constant global %s' % p.reg[1])
-            T = [table_bytes(m, p.reg, p.off + x * sc, 1)[0] for x in range(1 << nb)]
-            if T[0] != 0:
+            lc = m.P.__dict__.setdefault('_lincache', {})
+            lk = (p.reg[1], p.off, sc, nb)
+            if lk not in lc:
+                T = [table_bytes(m, p.reg, p.off + x * sc, 1)[0] for x in range(1 << nb)]
+                basis = [T[1 << j] for j in range(nb)]
+                lin = T[0] == 0
+                if lin:
+                    for x in range(1 << nb):
+                        e = 0
+                        for j in range(nb):
+                            if x >> j & 1:
+                                e ^= basis[j]
+                        if e != T[x]:
+                            lin = False   # not linear => TOP
+                            break
+                lc[lk] = basis if lin else None
+            basis = lc[lk]
+            if basis is None:
                 return [None] * 8
-            basis = [T[1 << j] for j in range(nb)]
-            for x in range(1 << nb):
-                e = 0
-                for j in range(nb):
-                    if x >> j & 1:
-                        e ^= basis[j]
-                if e != T[x]:
-                    return [None] * 8   # not linear => TOP
             out = []
             for b in range(8):
                 f = 0
@@ -628,7 +639,7 @@ def load_bytes(m, p, n, ins):
                 v = m.mem[kk][0]
                 out += v.f if isinstance(v, Bits) else [(v >> b) & 1 for b in range(8)]
             else:
-                raise Unsupported('load of unwritten/misaligned stack cell at %s' % ins.loc())
+                raise KernelViolation('read of an uninitialised (or differently sized) local cell at %s' % ins.loc())
         return out
     raise Unsupported('load from region %r at %s' % (p.reg, ins.loc()))
 
@@ -661,7 +672,7 @@ def do_load(m, p, ty, ins):
             v = m.mem[key][0]
             return v
         if isptr:
-            raise Unsupported('load of unwritten pointer cell at %s' % ins.loc())
+            raise KernelViolation('read of an uninitialised local pointer cell at %s' % ins.loc())
         n = max(1, tywidth(ty) // 8)
         f = load_bytes(m, p, n, ins)
         b = Bits(f[:tywidth(ty)])
